@@ -9,6 +9,7 @@ import (
 	sdk "github.com/cosmos/cosmos-sdk/types"
 	sdkerrors "github.com/cosmos/cosmos-sdk/types/errors"
 
+	teletypes "github.com/teleport-network/teleport/types"
 	"github.com/teleport-network/teleport/x/xibc/core/client/types"
 	"github.com/teleport-network/teleport/x/xibc/exported"
 )
@@ -196,7 +197,7 @@ func (k Keeper) UpdateClient(
 		)
 	}()
 
-	_ = ctx.EventManager().EmitTypedEvent(&types.EventUpdateClient{
+	_ = teletypes.EmitTypedEvent(ctx, &types.EventUpdateClient{
 		ChainName:       chainName,
 		ClientType:      clientState.ClientType(),
 		ConsensusHeight: consensusHeight.String(),
